@@ -126,6 +126,9 @@ func (l *chanListener) Accept() (net.Conn, error) {
 func (l *chanListener) Close() error   { l.once.Do(func() { close(l.closed) }); return nil }
 func (l *chanListener) Addr() net.Addr { return l.addr }
 
+// stallGiveUps counts scripted stalls that the target had to end itself after 8 s (the client did not time out)
+var stallGiveUps atomic.Int64
+
 type tlsPlanTarget struct {
 	l     net.Listener
 	Addr  string
@@ -242,6 +245,7 @@ func (t *tlsPlanTarget) raw(c net.Conn, kind string) {
 		case <-ch:
 		case <-t.done:
 		case <-time.After(8 * time.Second):
+			stallGiveUps.Add(1) // the CLIENT never gave up: the target ends the stall itself
 		}
 	case strings.HasPrefix(kind, "a"):
 		f := strings.SplitN(kind[1:], ".", 2)
